@@ -31,7 +31,7 @@ wt2=/tmp/wt-seeded-$$
 git -C /repo worktree add -q $wt2 HEAD || exit 2
 git -C $wt2 apply $src/patch.diff || { echo "cannot apply"; git -C /repo worktree remove --force $wt2; exit 2; }
 ev=$(mktemp -d)
-( cd /verif && VERIF_REPO=$wt2 VERIF_EVIDENCE_DIR=$ev VERIF_REPLAY_DIR=$out/replays timeout 3000 ./check $id "$@" > $out/check.log 2>&1; echo "check_exit=$?" >> $out/check.log )
+( cd ${VERIF_RUN_DIR:-/verif} && VERIF_REPO=$wt2 VERIF_EVIDENCE_DIR=$ev VERIF_REPLAY_DIR=$out/replays timeout 3000 ./check $id "$@" > $out/check.log 2>&1; echo "check_exit=$?" >> $out/check.log )
 rm -rf $ev
 git -C /repo worktree remove --force $wt2
 grep -h "VIOLATION\|check_exit\|INCONCLUSIVE" $out/check.log | cut -c1-300 | head -8
